@@ -537,4 +537,299 @@ theorem normalize_iff (p : NumberParts) (hwf : PartsWF p) (v : Int) :
       subst this
       exact ⟨s, rfl, hspw⟩
 
+/-! ### parseNumberParts on RFC numbers -/
+
+theorem expOpt_noDigitHead {e : Bytes} (he : ExpOpt e) : NoDigitHead e := by
+  cases he with
+  | none => exact NoDigitHead.nil
+  | some e0 sg d ds he0 _ _ _ => exact NoDigitHead.cons.2 (e_not_digit e0 he0)
+
+theorem partsExp_spec {e : Bytes} (he : ExpOpt e) : partsExp e = some (e.drop 1) := by
+  cases he with
+  | none => rfl
+  | some e0 sg d ds he0 hsg hd hds =>
+    have htw : (d :: ds).takeWhile isDigit = d :: ds := by
+      have := takeWhile_digits_append (ds := d :: ds) (r := []) (AllDigits.cons.2 ⟨hd, hds⟩) NoDigitHead.nil
+      simpa using this
+    cases hsg with
+    | none =>
+      have h1 := digit_ne_plus d hd
+      have h2 := digit_ne_minus d hd
+      simp only [List.nil_append, partsExp, if_pos he0, h1, h2, or_self, if_false, htw, List.drop_succ_cons,
+        List.drop_zero]
+    | plus =>
+      simp only [List.cons_append, List.nil_append, partsExp, if_pos he0, true_or, if_true, htw,
+        List.drop_succ_cons, List.drop_zero]
+    | minus =>
+      simp only [List.cons_append, List.nil_append, partsExp, if_pos he0, or_true, if_true, htw,
+        List.drop_succ_cons, List.drop_zero]
+
+theorem partsFrac_spec {f e : Bytes} (hf : FracOpt f) (he : ExpOpt e) : partsFrac (f ++ e) = (f.drop 1, e) := by
+  cases hf with
+  | none =>
+    cases he with
+    | none => rfl
+    | some e0 sg d ds he0 hsg hd hds =>
+      have hne : e0 ≠ 0x2e#8 := by rcases he0 with rfl | rfl <;> decide
+      cases hsg <;> simp [partsFrac, hne]
+  | some d ds hd hds =>
+    have hnd := expOpt_noDigitHead he
+    simp only [List.cons_append, partsFrac, hd, and_self, if_true, takeWhile_digits_append hds hnd,
+      dropDigits_append hds hnd, List.drop_succ_cons, List.drop_zero]
+
+/-- `bytes.TrimRight(s, "0")` -/
+theorem trimRightZeros_spec (s : Bytes) : ∃ z, s = trimRightZeros s ++ List.replicate z 0x30#8 ∧
+    (∀ a d, trimRightZeros s = a ++ [d] → d ≠ 0x30#8) := by
+  unfold trimRightZeros
+  have key : ∀ (r : Bytes), ∃ z, r = List.replicate z 0x30#8 ++ r.dropWhile (· == 0x30#8) ∧
+      (∀ c t, r.dropWhile (· == 0x30#8) = c :: t → c ≠ 0x30#8) := by
+    intro r
+    induction r with
+    | nil => exact ⟨0, by simp, by simp⟩
+    | cons c t ih =>
+      by_cases hc : c = 0x30#8
+      · obtain ⟨z, h1, h2⟩ := ih
+        refine ⟨z + 1, ?_, ?_⟩
+        · rw [List.dropWhile_cons_of_pos (by simp [hc]), List.replicate_succ, List.cons_append, ← h1, hc]
+        · rw [List.dropWhile_cons_of_pos (by simp [hc])]; exact h2
+      · refine ⟨0, ?_, ?_⟩
+        · rw [List.dropWhile_cons_of_neg (by simp [hc])]; simp
+        · rw [List.dropWhile_cons_of_neg (by simp [hc])]
+          intro c' t' h; simp at h; rw [← h.1]; exact hc
+  obtain ⟨z, h1, h2⟩ := key s.reverse
+  refine ⟨z, ?_, ?_⟩
+  · have := congrArg List.reverse h1
+    simpa using this
+  · intro a d h
+    have := congrArg List.reverse h
+    simp at this
+    exact h2 d a.reverse this
+
+/-- the parts of an RFC number literal -/
+def litParts (m i f e : Bytes) : NumberParts :=
+  { neg := !m.isEmpty, intp := if i = [0x30#8] then [] else i, frac := trimRightZeros (f.drop 1), exp := e.drop 1 }
+
+theorem parseNumberParts_spec {m i f e : Bytes} (hm : MinusOpt m) (hi : IntPart i) (hf : FracOpt f) (he : ExpOpt e) :
+    parseNumberParts (m ++ (i ++ (f ++ e))) = some (litParts m i f e) := by
+  have hnd : NoDigitHead (f ++ e) := by
+    cases hf with
+    | none => simpa using expOpt_noDigitHead he
+    | some d ds _ _ => exact NoDigitHead.cons.2 dot_not_digit
+  cases hm with
+  | none =>
+    cases hi with
+    | zero =>
+      simp only [List.nil_append, List.cons_append, parseNumberParts]
+      simp only [show ((0x30#8 : Byte) = 0x2d#8) = False by decide, decide_false, Bool.false_eq_true, if_false,
+        if_true]
+      rw [partsFrac_spec hf he]; simp only [partsExp_spec he]; simp [litParts]
+    | nonzero c ds hc hds =>
+      have h1 := digit_ne_minus c (digit19_digit c hc)
+      have h0 := digit19_ne_zero c hc
+      simp only [List.nil_append, List.cons_append, parseNumberParts, h1, decide_false, Bool.false_eq_true, if_false,
+        h0, hc, if_true, takeWhile_digits_append hds hnd, dropDigits_append hds hnd]
+      rw [partsFrac_spec hf he]; simp only [partsExp_spec he]; simp [litParts, h0]
+  | minus =>
+    cases hi with
+    | zero =>
+      simp only [List.cons_append, List.nil_append, parseNumberParts, decide_true, if_true]
+      rw [partsFrac_spec hf he]; simp only [partsExp_spec he]; simp [litParts]
+    | nonzero c ds hc hds =>
+      have h0 := digit19_ne_zero c hc
+      simp only [List.cons_append, List.nil_append, parseNumberParts, decide_true, if_true,
+        h0, hc, if_false, takeWhile_digits_append hds hnd, dropDigits_append hds hnd]
+      rw [partsFrac_spec hf he]; simp only [partsExp_spec he]; simp [litParts, h0]
+
+/-! ### the value of a literal, and Token.Int / Token.Uint -/
+
+/-- the integer `v` is the value of the RFC number literal with components `[m] i [f] [e]`:
+`±(i.f-digits) · 10^(exponent)`, the exponent read as an integer of any size -/
+def LitValue (m i f e : Bytes) (v : Int) : Prop :=
+  DecValue (!m.isEmpty) (natOfDigits (i ++ f.drop 1)) (expInt (e.drop 1) - (f.drop 1).length) v
+
+/-- the size guards of `normalizeToIntString` in terms of the literal: unless the literal is a zero
+(`0`, `0.000`, with any exponent) the exponent fits an int32 and, if non-negative,
+`(number of integer digits, 0 for "0") + exponent ≤ 20` -/
+def LitGuard (i f e : Bytes) : Prop :=
+  (i = [0x30#8] ∧ ∀ d ∈ f.drop 1, d = 0x30#8) ∨
+  (-((2 : Int) ^ 31) ≤ expInt (e.drop 1) ∧ expInt (e.drop 1) < (2 : Int) ^ 31 ∧
+    (0 ≤ expInt (e.drop 1) → ((if i = [0x30#8] then 0 else i.length : Nat) : Int) + expInt (e.drop 1) ≤ 20))
+
+theorem fracDigits_all {f : Bytes} (hf : FracOpt f) : AllDigits (f.drop 1) := by
+  cases hf with
+  | none => exact AllDigits.nil
+  | some d ds hd hds => exact AllDigits.cons.2 ⟨hd, hds⟩
+
+theorem litParts_wf {m i f e : Bytes} (hi : IntPart i) (hf : FracOpt f) (he : ExpOpt e) :
+    PartsWF (litParts m i f e) := by
+  obtain ⟨z, hz, hlast⟩ := trimRightZeros_spec (f.drop 1)
+  have hfd := fracDigits_all hf
+  refine ⟨?_, ?_, ?_, hlast, ?_⟩
+  · cases hi with
+    | zero => simp [litParts, AllDigits]
+    | nonzero c ds hc hds =>
+      simp only [litParts, List.cons.injEq, digit19_ne_zero c hc, false_and, if_false]
+      exact AllDigits.cons.2 ⟨digit19_digit c hc, hds⟩
+  · intro c t h
+    cases hi with
+    | zero => simp [litParts] at h
+    | nonzero c' ds hc hds =>
+      simp only [litParts, List.cons.injEq, digit19_ne_zero c' hc, false_and, if_false] at h
+      rw [← h.1]; exact digit19_ne_zero c' hc
+  · intro d hd
+    exact hfd d (by rw [hz]; exact List.mem_append_left _ hd)
+  · cases he with
+    | none => exact ExpStr.none
+    | some e0 sg d ds _ hsg hd hds =>
+      simp only [litParts, List.drop_succ_cons, List.drop_zero]
+      exact ExpStr.some sg (d :: ds) hsg (by simp) (AllDigits.cons.2 ⟨hd, hds⟩)
+
+theorem litParts_intp_value {i : Bytes} (hi : IntPart i) (x : Bytes) :
+    natOfDigits ((if i = [0x30#8] then [] else i) ++ x) = natOfDigits (i ++ x) := by
+  cases hi with
+  | zero => simp [natOfDigits_cons, digitVal]
+  | nonzero c ds hc _ => simp [digit19_ne_zero c hc]
+
+theorem litParts_value {m i f e : Bytes} (hi : IntPart i) (v : Int) :
+    PartsValue (litParts m i f e) v ↔ LitValue m i f e v := by
+  obtain ⟨z, hz, _⟩ := trimRightZeros_spec (f.drop 1)
+  unfold PartsValue LitValue partsM partsK
+  simp only [litParts]
+  rw [litParts_intp_value hi]
+  generalize trimRightZeros (f.drop 1) = ft at hz
+  have e1 : natOfDigits (i ++ (ft ++ List.replicate z 0x30#8)) = natOfDigits (i ++ ft) * 10 ^ z := by
+    rw [← List.append_assoc, natOfDigits_append (i ++ ft), natOfDigits_zeros]; simp
+  have e2 : (ft ++ List.replicate z 0x30#8).length = ft.length + z := by simp
+  rw [hz, e1, e2]
+  have := decValue_shift (neg := !m.isEmpty) (M := natOfDigits (i ++ ft))
+    (k := expInt (e.drop 1) - ((ft.length + z : Nat) : Int)) (v := v) z
+  rw [this]
+  have hk : expInt (e.drop 1) - ((ft.length + z : Nat) : Int) + (z : Int) = expInt (e.drop 1) - (ft.length : Int) := by
+    omega
+  rw [hk]
+
+theorem litParts_guard {m i f e : Bytes} (hi : IntPart i) (hf : FracOpt f) :
+    PartsGuard (litParts m i f e) ↔ LitGuard i f e := by
+  obtain ⟨z, hz, _⟩ := trimRightZeros_spec (f.drop 1)
+  have hfd := fracDigits_all hf
+  have hintp : (if i = [0x30#8] then ([] : Bytes) else i) = [] ↔ i = [0x30#8] := by
+    cases hi with
+    | zero => simp
+    | nonzero c ds hc _ => simp [digit19_ne_zero c hc]
+  have hfrac : trimRightZeros (f.drop 1) = [] ↔ ∀ d ∈ f.drop 1, d = 0x30#8 := by
+    constructor
+    · intro h d hd
+      rw [hz, h, List.nil_append] at hd
+      exact List.eq_of_mem_replicate hd
+    · intro h
+      rcases List.eq_nil_or_concat (trimRightZeros (f.drop 1)) with h' | ⟨a, d, h'⟩
+      · exact h'
+      · rw [List.concat_eq_append] at h'
+        have hmem : d ∈ f.drop 1 := by rw [hz, h']; simp
+        obtain ⟨_, _, hl⟩ := trimRightZeros_spec (f.drop 1)
+        exact absurd (h d hmem) (hl a d h')
+  have hlen : (litParts m i f e).intp.length = (if i = [0x30#8] then 0 else i.length) := by
+    simp only [litParts]; split <;> simp
+  unfold PartsGuard LitGuard
+  rw [hlen]
+  simp only [litParts, hintp, hfrac]
+
+/-- `raw` is an RFC 8259 number literal that denotes the integer `v` and passes the size guards -/
+def IntLit (raw : Bytes) (v : Int) : Prop :=
+  ∃ m i f e, raw = m ++ (i ++ (f ++ e)) ∧ MinusOpt m ∧ IntPart i ∧ FracOpt f ∧ ExpOpt e ∧
+    LitValue m i f e v ∧ LitGuard i f e
+
+theorem IntLit.number {raw : Bytes} {v : Int} (h : IntLit raw v) : Number raw := by
+  obtain ⟨m, i, f, e, rfl, hm, hi, hf, he, _, _⟩ := h
+  exact Number.mk m i f e hm hi hf he
+
+theorem getIntStr_core {m i f e : Bytes} (hm : MinusOpt m) (hi : IntPart i) (hf : FracOpt f) (he : ExpOpt e) :
+    match getIntStr (m ++ (i ++ (f ++ e))) with
+    | none => ¬ ∃ v, LitValue m i f e v ∧ LitGuard i f e
+    | some s => ∃ v, LitValue m i f e v ∧ LitGuard i f e ∧ SpellsInt s v := by
+  unfold getIntStr
+  rw [parseNumberParts_spec hm hi hf he]
+  simp only [Option.bind_some]
+  have hc := normalize_core (litParts m i f e) (litParts_wf hi hf he)
+  cases hn : normalizeToIntString (litParts m i f e) with
+  | none =>
+    rw [hn] at hc
+    simp only
+    rintro ⟨v, hv, hg⟩
+    exact hc ⟨v, (litParts_value hi v).2 hv, (litParts_guard hi hf).2 hg⟩
+  | some s =>
+    rw [hn] at hc
+    obtain ⟨v, hv, hg, hs⟩ := hc
+    exact ⟨v, (litParts_value hi v).1 hv, (litParts_guard hi hf).1 hg, hs⟩
+
+/-- `Token.Int(bits)` on a number literal -/
+theorem tokenInt_iff (bits : Nat) (raw : Bytes) (hnum : Number raw) (v : Int) :
+    tokenInt bits raw = some v ↔
+      IntLit raw v ∧ -((2 : Int) ^ (bits - 1)) ≤ v ∧ v < (2 : Int) ^ (bits - 1) := by
+  constructor
+  · intro h
+    obtain ⟨m, i, f, e, hm, hi, hf, he⟩ := hnum
+    have hc := getIntStr_core hm hi hf he
+    unfold tokenInt at h
+    cases hg : getIntStr (m ++ (i ++ (f ++ e))) with
+    | none => rw [hg] at h; simp at h
+    | some s =>
+      rw [hg] at hc h
+      obtain ⟨w, hw, hgd, hs⟩ := hc
+      simp only [Option.bind_some] at h
+      rw [parseIntBits_spells bits hs] at h
+      split at h
+      next hr =>
+        have : w = v := Option.some.inj h
+        subst this
+        exact ⟨⟨m, i, f, e, rfl, hm, hi, hf, he, hw, hgd⟩, hr⟩
+      next => cases h
+  · rintro ⟨⟨m, i, f, e, rfl, hm, hi, hf, he, hv, hgd⟩, hr⟩
+    have hc := getIntStr_core hm hi hf he
+    unfold tokenInt
+    cases hg : getIntStr (m ++ (i ++ (f ++ e))) with
+    | none => rw [hg] at hc; exact absurd ⟨v, hv, hgd⟩ hc
+    | some s =>
+      rw [hg] at hc
+      obtain ⟨w, hw, _, hs⟩ := hc
+      have : w = v := DecValue.unique hw hv
+      subst this
+      simp only [Option.bind_some]
+      rw [parseIntBits_spells bits hs, if_pos hr]
+
+/-- `Token.Uint(bits)` on a number literal -/
+theorem tokenUint_iff (bits : Nat) (raw : Bytes) (hnum : Number raw) (n : Nat) :
+    tokenUint bits raw = some n ↔ IntLit raw (n : Int) ∧ (n : Int) < (2 : Int) ^ bits := by
+  constructor
+  · intro h
+    obtain ⟨m, i, f, e, hm, hi, hf, he⟩ := hnum
+    have hc := getIntStr_core hm hi hf he
+    unfold tokenUint at h
+    cases hg : getIntStr (m ++ (i ++ (f ++ e))) with
+    | none => rw [hg] at h; simp at h
+    | some s =>
+      rw [hg] at hc h
+      obtain ⟨w, hw, hgd, hs⟩ := hc
+      simp only [Option.bind_some] at h
+      rw [parseUintBits_spells bits hs] at h
+      split at h
+      next hr =>
+        have : w.toNat = n := Option.some.inj h
+        have hwn : w = (n : Int) := by omega
+        subst hwn
+        exact ⟨⟨m, i, f, e, rfl, hm, hi, hf, he, hw, hgd⟩, hr.2⟩
+      next => cases h
+  · rintro ⟨⟨m, i, f, e, rfl, hm, hi, hf, he, hv, hgd⟩, hr⟩
+    have hc := getIntStr_core hm hi hf he
+    unfold tokenUint
+    cases hg : getIntStr (m ++ (i ++ (f ++ e))) with
+    | none => rw [hg] at hc; exact absurd ⟨_, hv, hgd⟩ hc
+    | some s =>
+      rw [hg] at hc
+      obtain ⟨w, hw, _, hs⟩ := hc
+      have : w = (n : Int) := DecValue.unique hw hv
+      subst this
+      simp only [Option.bind_some]
+      rw [parseUintBits_spells bits hs, if_pos ⟨by omega, hr⟩]; simp
+
 end JsonLex
